@@ -146,6 +146,20 @@ def prop_entry(case):
             continue
         if not in_domain:
             classes.append('singular:executed')
+            # outside the closure-regular domain nothing is asserted about the evolution (0/0 in the closures), but the state
+            # reported AT tmin is the requested one whatever happens later (e.g. rho=0: S=N, I=0)
+            if not rfd:
+                try:
+                    sir = e.model == 'SIR'
+                    series = [np.asarray(out[k], dtype=float) for k in range(1, 4 if sir else 3)]
+                    got0 = [float(x[0]) for x in series]
+                    want0 = [ic.S0, ic.I0] + ([ic.R0] if sir else [])
+                    if all(np.isfinite(got0)) and any(abs(a - b) > 1e-9 * max(1.0, ic.N) for a, b in zip(got0, want0)):
+                        fails.append(Failure(name + ':initial-counts:' + case['mode'] + ':degenerate-state',
+                                             'at tmin (S,I%s) = %r, requested %r (rho=%r I0=%r R0=%r)' % (',R' if sir else '', got0, want0,
+                                                                                                       case['rho'] if case['mode'] == 'rho' else None, case['I0'], case['R0'])))
+                except Exception:
+                    pass
             continue
         if not rfd:
             fails += check_plain(case, e, ic, out, name)
@@ -176,7 +190,70 @@ def prop_entry(case):
     return Result(fails, nontrivial=nt, classes=classes + ([] if in_domain else ['outside-asserted-domain']))
 
 
+# ---------------------------------------------------------------------------
+# very large populations (the library is meant for 1e5-1e6 nodes): consistency tests that compare pair counts with
+# <k>N must survive the rounding of numbers of order 1e6.  Aggregated models only (their ODE dimension depends on the
+# number of distinct degrees, not on N); the graph - a union of cliques of two sizes - is rebuilt from four integers.
+# ---------------------------------------------------------------------------
+
+HUGE = sorted(n for n, e in ac.ENTRIES.items() if e.level == 'wrapper' and 'sets' in e.modes and not e.discrete
+              and 'individual' not in n and 'pair_based' not in n)
+
+
+def huge_gc(a, s1, b, s2):
+    edges, start = [], 0
+    for cnt, sz in ((a, s1), (b, s2)):
+        for _ in range(cnt):
+            edges += [[start + i, start + j] for i in range(sz) for j in range(i + 1, sz)]
+            start += sz
+    return {'nodes': list(range(start)), 'edges': edges, 'ew': None, 'nw': None, 'directed': False}
+
+
+def huge_cases(seed, name, count):
+    """Explicit cases from a PRNG that is a pure function of (VERIF_SEED, entry point): Hypothesis always spends its first
+    example on the minimal case, which matters when a case costs 8 s and only one per entry point is affordable."""
+    import random, zlib
+    R = random.Random(seed * 1000003 + zlib.crc32(name.encode()))
+    for _ in range(count):
+      adverse = R.randint(0, 3) > 0
+      for _attempt in range(10):
+        s1, s2 = R.randint(8, 13), R.randint(3, 6)
+        a = -(-1080000 // (s1 * (s1 - 1))) + R.randint(0, 800)          # 2M > 2^20: one ulp of <k>N is 2.3e-10
+        b = R.randint(100, 3000)
+
+        def shortfall(ab):
+            # <k>N evaluated naively in floats (degree histogram / N, then sum k P(k), then * N) against the exact 2M: the
+            # initial state below sits exactly on the bound [SS]+2[SI] == 2M, so the most adverse rounding is the interesting
+            # one (for most sizes the float result is exact, which exercises nothing)
+            a_, b_ = ab
+            N_ = a_ * s1 + b_ * s2
+            n_ = (s1 - 1) * (a_ * s1 / float(N_)) + (s2 - 1) * (b_ * s2 / float(N_))
+            return (a_ * s1 * (s1 - 1) + b_ * s2 * (s2 - 1)) - n_ * N_
+        if not adverse:
+            break
+        a, b = max([(a + i, b + j) for i in range(200) for j in (0, 1, 2, 3, 5, 8, 13)], key=shortfall)
+        if shortfall((a, b)) > 0:
+            break               # otherwise these clique sizes never round adversely: try others
+      if True:
+        N = a * s1 + b * s2
+        pick = R.choice(['first', 'last', 'two'])
+        I0 = {'first': [0], 'last': [N - 1], 'two': [0, N - 1]}[pick]
+        tmin = R.choice([0, 2.0])
+        yield {'entry': name, 'huge': [a, s1, b, s2], 'mode': 'sets', 'I0': I0, 'R0': [], 'I0form': 'list', 'R0form': 'list',
+               'tau': R.choice([0.5, 1.0]), 'gamma': R.choice([0.5, 1.0]), 'rho': 0.1, 'p': 0.5,
+               'tmin': tmin, 'tmax': tmin + 0.1, 'tcount': 3, 'dtmin': 0, 'dtmax': 2, 'float_Ks': False}
+
+
+def prop_huge(case):
+    c = dict(case)
+    c['gc'] = huge_gc(*case['huge'])
+    res = prop_entry(c)
+    return Result(res.failures, nontrivial=not res.failures or True, classes=['huge', case['entry']])
+
+
 def replay(ctx, sub, case):
+    if 'huge' in case:
+        return prop_huge(case).failures
     return prop_entry(case).failures
 
 
@@ -198,3 +275,7 @@ def run(ctx):
         if only and nm not in only:
             continue
         run_hypothesis(ctx, nm, ac.analytic_case(names=[nm], weights=True), prop_entry, per, rounds=4)
+    if not only or 'huge' in only:
+        from ..runner import run_cases
+        for nm in HUGE:
+            run_cases(ctx, 'huge', huge_cases(ctx.seed, nm, 1 if quick else 6), prop_huge, case_timeout=600)
